@@ -300,6 +300,61 @@ def run(chk, ctx):
     c05.r2(chk, ctx, p, ctx.mod("state_engine"))
     c06.r4(chk, ctx, p, ctx.mod("state_engine"))     # drain clause: join state / held events released exactly when nothing is pending
     r7(chk, ctx)
+    r8(chk, ctx)
     chk.assume("the broker redelivers unacknowledged messages (trusted)")
     chk.assume("engine-internal calls do not raise; exception edges come from the may-raise table of sa/flow.py")
     chk.assume("an uncaught exception in a timer/reply callback is not acknowledged by anybody (C18.R4 findings are therefore also C03 findings)")
+
+
+def r8(chk, ctx):
+    """every path of the reply handler disposes of the reply message exactly once: acknowledged, or parked as an orphan
+    (whose timer / later match acknowledges it)"""
+    from ..flow import FlowEngine, State
+    td = ctx.mod("task_dispatcher")
+    h = td.func("TaskDispatcher.handle_rpcmessage_response")
+    eng = FlowEngine(ctx.repo, ctx.res, depth=2)
+    lo = h.children.get("log_and_acknowledge_orphaned_responses")
+
+    def call_hook(e, func, call, st, tag, target, node):
+        nm = norm(call.func)
+        if nm == "message.acknowledge":
+            fl = st.flags | ({"dup"} if ("ack" in st.flags or "parked" in st.flags) and "unparked" not in st.flags else set()) | {"ack"}
+            return [(st._replace(flags=frozenset(fl)), None)]
+        if target is lo:
+            # acknowledges the message iff it is parked under its correlation id
+            if "parked" in st.flags:
+                return [(st._replace(flags=(st.flags - {"parked"}) | {"ack", "unparked"}), None)]
+            return [(st, None)]
+        return [(st, None)]
+
+    def stmt_hook(e, func, node, st):
+        a = node.ast
+        if isinstance(a, ast.Assign) and any(isinstance(t, ast.Subscript) and norm(t.value) == "self.orphaned_responses" for t in a.targets) \
+                and isinstance(a.value, ast.Tuple) and a.value.elts and norm(a.value.elts[0]) == "message":
+            return st._replace(flags=st.flags | {"parked"})
+        return st
+
+    exits = eng.run(h, State(False, 0, False, frozenset(), frozenset()), {"call_hook": call_hook, "stmt_hook": stmt_hook})
+    n = 0
+    seen = set()
+    for kind, st, rv, key in exits:
+        if kind != "normal":
+            continue
+        n += 1
+        disposed = "ack" in st.flags or "parked" in st.flags
+        path = eng.trail(key, limit=40)
+        tests = []
+        g = eng._last_cfg
+        last_stmt = g.nodes[key[0]].ast
+        gi = [norm(i.test)[:60] + ("" if arm == "body" else " [else]") for i, arm in enclosing_ifs(td, last_stmt, h.node)] if last_stmt is not None else []
+        sig = " / ".join(reversed(gi)) or "function end"
+        if not disposed and sig not in seen:
+            seen.add(sig)
+            chk.ob("C03.R8", "reply handler path disposes of the reply", False, sig,
+                   key="%s | reply neither acknowledged nor parked on the path ending under: %s" % (h.qname, sig), where=h.where(last_stmt) if last_stmt is not None else h.where(), path=path,
+                   message="the reply message stays unacknowledged for the life of the connection and is redelivered on every reconnect")
+        if "dup" in st.flags and ("dup", sig) not in seen:
+            seen.add(("dup", sig))
+            chk.ob("C03.R8", "reply acknowledged at most once", False, sig, key="%s | reply acknowledged twice on a path (%s)" % (h.qname, sig), where=h.where(), path=path, message="")
+    chk.ob("C03.R8", "all %d exit paths of the reply handler examined" % n, True, "")
+    chk.floor("C03.R8", n, 5, "exit paths of the reply handler")
